@@ -101,7 +101,10 @@ Section DryErr.
     { intros n Hn. replace r2 with (fst (run_steps (step2 cf orl sdir subdir) L2 r1)) by (rewrite Er2; reflexivity).
       apply (run_steps_frame _ (fun x => x)); [apply step2_frame|rewrite map_id; assumption]. }
     (* pass 3: same sub-directories, same exceptions by induction *)
-    apply (run_steps_err_eq str (fun n => n) (step3 (sync_ws fuel od deep) od sdir subdir) (step3 (sync_ws fuel orl deep) orl sdir subdir)).
+    assert (Ef : funny_err frepr cf od deep sdir ddir = funny_err frepr cf orl deep sdir ddir) by reflexivity.
+    rewrite Ef. destruct (funny_err frepr cf orl deep sdir ddir); [reflexivity|].
+    apply (run_steps_err_eq str (fun n => n) (step3 (sync_ws fuel (set_top od false) deep) od sdir subdir)
+                            (step3 (sync_ws fuel (set_top orl false) deep) orl sdir subdir)).
     - apply step3_frame.
     - apply step3_frame.
     - intros n d d' Hdd. unfold step3. change (o_recursive od) with (o_recursive o). change (o_recursive orl) with (o_recursive o).
@@ -110,10 +113,10 @@ Section DryErr.
       rewrite <- Hdd. destruct (alookup n d) as [[c2 m2|des]|]; try reflexivity.
       assert (Hw : wf_node (Dir ses) = true) by (eapply Hsub; eauto).
       destruct (wf_dir_inv _ Hw) as [Hnd' Hsub'].
-      specialize (IH o deep ses des (join subdir n) Hnd' Hsub').
-      fold od orl in IH.
-      destruct (sync_ws fuel od deep ses des (join subdir n)) as [x1 y1].
-      destruct (sync_ws fuel orl deep ses des (join subdir n)) as [x2 y2]. exact IH.
+      specialize (IH (set_top o false) deep ses des (join subdir n) Hnd' Hsub').
+      match goal with |- snd (let '(_, _) := ?A in _) = snd (let '(_, _) := ?B in _) =>
+        assert (J : snd A = snd B) by exact IH; destruct A; destruct B; exact J
+      end.
     - rewrite map_id. apply of_cls_NoDup. assumption.
     - intros n Hin. apply of_cls_In in Hin. destruct Hin as [_ Hc].
       rewrite F2, F1; [reflexivity| |]; intro Hin'; apply of_cls_In in Hin'; destruct Hin' as [_ Hc']; congruence.
@@ -125,7 +128,7 @@ From SV Require Import CorrC13 CorrC14 SyncDocProofs SyncTopProofs.
 (* ------------------------------------------------------------------ documents: same skipped keys, same exception *)
 Section DryDoc.
   Variable cf : cfg.
-  Variable ks : option (str -> bool).
+  Variable ks : option (str -> option bool).
   Hypothesis H16 : fix_F16 cf = true.
 
   Definition same_err (r1 r2 : json * list str * option exn) : Prop :=
@@ -154,7 +157,7 @@ Section DryDoc.
     destruct (alookup k d1) as [y|] eqn:Ey.
     - destruct (py_eq y x); [apply Next; reflexivity|].
       destruct x as [| | | | | |xs];
-        try (destruct (selected ks (root ++ k));
+        try (destruct (ks_raises ks (root ++ k)); [simpl; auto|]; destruct (selected ks (root ++ k));
              [apply Next; intros; first [reflexivity|apply pset_frame; assumption|apply alookup_aset_other; congruence]
              |apply Next; reflexivity]).
       unfold nested_dry. rewrite H16.
@@ -235,17 +238,19 @@ Section DrySync.
   Proof.
     intros o deep fp sdir ddir dsp Hwf Hdoc Hbk Hnd. rewrite !sync_jobs_existing.
     destruct (wf_dir_inv _ Hwf) as [Hn Hsub].
-    pose proof (ws_dry_same_exception frepr cf H3 H4 (S (depth (Dir sdir))) o deep sdir ddir [] Hn Hsub) as W.
-    pose proof (sync_ws_dry_id frepr cf (S (depth (Dir sdir))) (set_dry o true) deep sdir ddir [] eq_refl (or_introl H4)) as Wid.
-    pose proof (sync_ws_untouched frepr cf (S (depth (Dir sdir))) (set_dry o false) deep sdir ddir [] (backup_name FN_DOC)
+    assert (W : snd (sync_ws frepr cf (S (depth (Dir sdir))) (set_top (set_dry o true) true) deep sdir ddir [])
+                = snd (sync_ws frepr cf (S (depth (Dir sdir))) (set_top (set_dry o false) true) deep sdir ddir []))
+      by exact (ws_dry_same_exception frepr cf H3 H4 (S (depth (Dir sdir))) (set_top o true) deep sdir ddir [] Hn Hsub).
+    pose proof (sync_ws_dry_id frepr cf (S (depth (Dir sdir))) (set_top (set_dry o true) true) deep sdir ddir [] eq_refl (or_introl H4)) as Wid.
+    pose proof (sync_ws_untouched frepr cf (S (depth (Dir sdir))) (set_top (set_dry o false) true) deep sdir ddir [] (backup_name FN_DOC)
                                   (or_introl Hbk)) as Ub.
-    destruct (sync_ws frepr cf (S (depth (Dir sdir))) (set_dry o true) deep sdir ddir []) as [a1 e1].
-    destruct (sync_ws frepr cf (S (depth (Dir sdir))) (set_dry o false) deep sdir ddir []) as [a2 e2] eqn:E2.
+    destruct (sync_ws frepr cf (S (depth (Dir sdir))) (set_top (set_dry o true) true) deep sdir ddir []) as [a1 e1].
+    destruct (sync_ws frepr cf (S (depth (Dir sdir))) (set_top (set_dry o false) true) deep sdir ddir []) as [a2 e2] eqn:E2.
     simpl in W, Wid, Ub. subst e2 a1.
     destruct e1; [reflexivity|].
     destruct (o_docsync o) as [ks| | |] eqn:Eds.
     1,2: (assert (Ud : alookup FN_DOC a2 = alookup FN_DOC ddir);
-          [ replace a2 with (fst (sync_ws frepr cf (S (depth (Dir sdir))) (set_dry o false) deep sdir ddir [])) by (rewrite E2; reflexivity);
+          [ replace a2 with (fst (sync_ws frepr cf (S (depth (Dir sdir))) (set_top (set_dry o false) true) deep sdir ddir [])) by (rewrite E2; reflexivity);
             apply sync_ws_untouched_src; right; split; [apply excluded_doc; simpl; congruence|assumption]
           | pose proof (sync_doc_dry_err o FN_DOC sdir ddir a2 Hdoc (eq_sym Ud) (eq_sym Ub)) as D;
             destruct (sync_doc cf (set_dry o true) FN_DOC sdir ddir) as [x1 y1];
